@@ -43,6 +43,7 @@ type srvCfg struct {
 	wait     bool
 	bl       *blocklist
 	budget   int // -1 = unlimited
+	publicIP  net.IP
 	storeFail bool // the underlying BEP 44 store fails Put for items with seq % 7 == 3
 	scenario string
 }
@@ -178,6 +179,9 @@ func startServer(c *srvCase) *srvState {
 	if c.cfg.bl != nil {
 		cfg.IPBlocklist = c.cfg.bl
 	}
+	if c.cfg.publicIP != nil {
+		cfg.PublicIP = c.cfg.publicIP
+	}
 	if c.cfg.ps {
 		st.ps = &recPeerStore{}
 		cfg.PeerStore = st.ps
@@ -206,6 +210,11 @@ func startServer(c *srvCase) *srvState {
 		panic(err)
 	}
 	st.s = s
+	// the node's own id is what ID() reports; a configured NodeId must be kept
+	if s.ID() != c.cfg.root {
+		oracle("C05", "server-id-differs-from-configured-node-id", "case=%d configured=%x id=%x", c.idx, c.cfg.root, s.ID())
+		c.cfg.root = s.ID()
+	}
 	s.VerifSetTokenClock(st.now)
 	// wait for the serve loop to block in ReadFrom, then take the goroutine baseline
 	for atomic.LoadInt64(&st.conn.reads) == 0 {
@@ -719,6 +728,20 @@ func (st *srvState) oracleEntry(e *sev, in *krpc.Msg, decodes, blockedSrc bool, 
 		}
 		if !c.cfg.nosec && !dht.NodeIdSecure(n.Id, net.ParseIP(hostOf(n.Addr))) {
 			oracle("C06", "insecure-id-admitted-under-security", "%s id=%x addr=%s", ctxs, n.Id, n.Addr)
+		}
+	}
+	// an entry's "answered us" time stamp moves only through a solicited response from that entry
+	for _, n := range post {
+		for _, o := range pre {
+			if o.Id != n.Id || o.Addr != n.Addr {
+				continue
+			}
+			refreshed := (o.ResponseAgeNs < 0 && n.ResponseAgeNs >= 0) || (o.ResponseAgeNs >= 0 && n.ResponseAgeNs >= 0 && n.ResponseAgeNs+int64(time.Second) < o.ResponseAgeNs)
+			own := decodes && sender != nil && *sender == krpc.ID(n.Id) && n.Addr == e.src.String()
+			if refreshed && !(own && matched && !isQuery) {
+				oracle("C06", "response-time-refreshed-without-solicited-response", "%s id=%x addr=%s", ctxs, n.Id, n.Addr)
+				oracle("C09", "contact-counted-as-having-answered-without-solicited-response", "%s id=%x addr=%s", ctxs, n.Id, n.Addr)
+			}
 		}
 	}
 	for _, n := range pre {
